@@ -419,6 +419,23 @@ theorem run_batch_irrelevant {W : Type} (ops : Rule → WinOps W) (s : Sys W) (o
     have h : step ops s (eraseBatch o) = step ops s o := by cases o <;> rfl
     simp only [List.map_cons, run, h, ih]
 
+/-- **clear_ruleless_irrelevant.**  `ClearRulesOfResource(x)` / `LoadRulesOfResource(x, [])` (and, the harness
+    dropping invalid rules, `LoadRulesOfResource(x, <only invalid rules>)`) for a resource that owns no breaker
+    changes nothing at all: every breaker of every other resource, the live entries and the identities stay as they
+    are, so all later decisions and callbacks are the same as without the call. -/
+theorem clear_ruleless_irrelevant {W : Type} (ops : Rule → WinOps W) (s : Sys W) (x : String)
+    (h : ∀ b ∈ s.brs, b.rule.res ≠ x) : step ops s (.loadRes x []) = (s, {}) := by
+  have hf : s.brs.filter (fun b => b.rule.res != x) = s.brs := by
+    rw [List.filter_eq_self]
+    intro b hb
+    simpa using h b hb
+  simp only [step, build, List.append_nil, hf, List.length_nil, Nat.add_zero]
+
+/-- clearing any resource removes exactly its breakers and touches no other breaker -/
+theorem clear_keeps_others {W : Type} (ops : Rule → WinOps W) (s : Sys W) (x : String) :
+    (step ops s (.loadRes x [])).1.brs = s.brs.filter (fun b => b.rule.res != x) := by
+  simp only [step, build, List.append_nil]
+
 /-! ## 5b. the probe counter -/
 
 section probes
